@@ -386,6 +386,32 @@ func (e *Enc) instr(fr *Frame, b *ssa.BasicBlock, in ssa.Instruction, g string, 
 		case token.MUL: // load
 			p := e.operand(fr, x.X)
 			a := p.a
+			if a != nil && len(a.path) == 0 {
+				if co, ok := e.cellOps()[a.key]; ok {
+					fr.ops[x] = co
+					return h
+				}
+			}
+			if a == nil && p.v.T != "" {
+				if pt, ok := x.X.Type().Underlying().(*types.Pointer); ok {
+					if st, ok := pt.Elem().Underlying().(*types.Struct); ok {
+						// whole-struct load through a struct pointer
+						e.nopanic(fr, "nil", g, fmt.Sprintf("(distinct %s 0)", p.v.T), x.Pos(), "nil pointer dereference")
+						si := e.d.structInfoOf(pt.Elem())
+						var fs []string
+						for i := 0; i < st.NumFields(); i++ {
+							key := e.fieldKey(pt.Elem(), st, i)
+							fs = append(fs, fmt.Sprintf("(select %s %s)", e.hget(h, key), p.v.T))
+						}
+						if len(fs) == 0 {
+							e.setOp(fr, x, si.ctor)
+						} else {
+							e.setOp(fr, x, "("+si.ctor+" "+strings.Join(fs, " ")+")")
+						}
+						return h
+					}
+				}
+			}
 			if a == nil {
 				a = e.derefValue(fr, x.X, p, g, x.Pos())
 			}
@@ -412,6 +438,21 @@ func (e *Enc) instr(fr *Frame, b *ssa.BasicBlock, in ssa.Instruction, g string, 
 			a = e.derefValue(fr, x.Addr, p, g, x.Pos())
 		}
 		v := e.operand(fr, x.Val)
+		if a == nil && p.v.T != "" && v.v.T != "" {
+			if pt, ok := x.Addr.Type().Underlying().(*types.Pointer); ok {
+				if st, ok := pt.Elem().Underlying().(*types.Struct); ok {
+					// whole-struct store through a struct pointer
+					e.nopanic(fr, "nil", g, fmt.Sprintf("(distinct %s 0)", p.v.T), x.Pos(), "nil pointer dereference")
+					si := e.d.structInfoOf(pt.Elem())
+					for i := 0; i < st.NumFields(); i++ {
+						key := e.fieldKey(pt.Elem(), st, i)
+						fa := &Addr{key: key, idx: []string{p.v.T}, typ: st.Field(i).Type()}
+						h = e.store(h, fa, fmt.Sprintf("(%s %s)", si.fields[i], v.v.T))
+					}
+					return h
+				}
+			}
+		}
 		if a == nil {
 			e.warn("%s: store through untracked pointer %s", fr.fn.Name(), x.Addr.Name())
 			return e.havocAll(fr, h, "store through untracked pointer")
@@ -602,8 +643,12 @@ func (e *Enc) terminator(fr *Frame, b *ssa.BasicBlock, in ssa.Instruction, g str
 		fr.edgeG[[2]int{b.Index, b.Succs[0].Index}] = g
 	case *ssa.If:
 		c := e.operand(fr, x.Cond).v.T
-		fr.edgeG[[2]int{b.Index, b.Succs[0].Index}] = e.define(fmt.Sprintf("e_%d_%d", b.Index, b.Succs[0].Index), "Bool", and(g, c))
-		fr.edgeG[[2]int{b.Index, b.Succs[1].Index}] = e.define(fmt.Sprintf("e_%d_%d", b.Index, b.Succs[1].Index), "Bool", and(g, not(c)))
+		if t := and(g, c); t != "false" {
+			fr.edgeG[[2]int{b.Index, b.Succs[0].Index}] = e.define(fmt.Sprintf("e_%d_%d", b.Index, b.Succs[0].Index), "Bool", t)
+		}
+		if t := and(g, not(c)); t != "false" {
+			fr.edgeG[[2]int{b.Index, b.Succs[1].Index}] = e.define(fmt.Sprintf("e_%d_%d", b.Index, b.Succs[1].Index), "Bool", t)
+		}
 	}
 }
 
@@ -631,6 +676,13 @@ func (e *Enc) alloc(fr *Frame, x *ssa.Alloc, g string, h *Heap) *Heap {
 	t := x.Type().(*types.Pointer).Elem()
 	switch u := t.Underlying().(type) {
 	case *types.Struct:
+		if !addrEscapes(x) {
+			// non-escaping struct local: a cell holding the struct value
+			key := fmt.Sprintf("C|%d|%s", fr.id, x.Name())
+			e.regKey(key, e.d.sortOf(t), t)
+			fr.ops[x] = Operand{a: &Addr{key: key, typ: t}, ok: true}
+			return e.hset(h, key, e.d.zeroOf(t))
+		}
 		ref, h2 := e.freshRef(h, x.Name())
 		for i := 0; i < u.NumFields(); i++ {
 			key := e.fieldKey(t, u, i)
